@@ -20,13 +20,15 @@ ID = "C12"
 TECHNIQUE = ("model-based stateful testing (Hypothesis RuleBasedStateMachine): generated histories of parse / parseFragment / strict-mode / faulting-source / serialize calls on shared "
              "HTMLParser, walker and serializer objects, and read-level thread schedules of independent parsers; after every step the result must equal that of brand-new objects "
              "(a sample is re-computed in a fresh interpreter)")
-RULE = ("Histories (<= 10 steps) over shared objects {HTMLParser(etree), HTMLParser(dom), HTMLParser(strict=True), 4 HTMLSerializer option records}: parse(doc | bytes with late <meta>), "
-        "parseFragment(doc, container), strict parse (aborts with ParseError at the first error), parse from a source that raises IOError after k reads, serialize(tree, options), and a "
-        "'threads' step in which 2-3 independent shared parsers parse in threads whose sources are gated so that the harness releases exactly one read at a time following a generated schedule. "
-        "Documents are biased to the stateful spots: pending table text, pre/textarea/listing newline swallowing, RCDATA/script tokenizer states, many distinct tag names (handler cache), "
-        "encoding restarts, plaintext. Oracle after every step: (tree, errors, documentEncoding) or the raised ParseError message / serializer output + errors == the same call on brand-new "
-        "objects; 1/25 of the parse results are re-computed in a fresh interpreter and compared by digest. Non-trivial = the history has an aborted call followed by a completed one, or "
-        ">= 3 calls touching a stateful spot, or a threads step; distinct = (operation kinds, abort positions, document hashes) signature.")
+RULE = ("Histories (<= 10 steps, thorough 14) over shared objects {HTMLParser(etree fullTree), HTMLParser(etree root-element form), HTMLParser(dom), HTMLParser(strict=True), "
+        "4 HTMLSerializer option records}: parse / parseFragment (free-form documents biased to the stateful spots: pending table text, pre/textarea/listing newline, RCDATA/script "
+        "tokenizer states, many distinct tag names, quirks doctypes, encoding restarts; and error-free documents over those spots, or such documents cut open plus one offending token, so that "
+        "a strict parser completes them or aborts at varied error sites), parse from a source that raises IOError after k reads, serialize(tree, options, encoding) twice as likely as the others, "
+        "a 'threads' step in which 2-3 shared parsers parse in threads whose sources are gated so that the harness releases exactly one read at a time following a generated schedule, and the same "
+        "with 2-3 concurrent calls of the module-level html5lib.parse() using equal configurations. Oracle after every step: (tree, errors, documentEncoding) or the raised ParseError message / "
+        "serializer output + errors == the same call on brand-new objects; a sample of the parse results (every parser kind) is re-computed in one freshly forked interpreter state per call and "
+        "a larger batch in one fresh interpreter, compared by digest. Non-trivial = the history has an aborted call followed by a completed one, or >= 3 calls touching a stateful spot, or a "
+        "threads step; distinct = (operation kinds, abort positions, document hashes) signature.")
 ASSUMPTIONS = ["thread interleavings are owned at read() granularity only (finer-grained preemption is not controlled)", "a source that raises makes parse() raise the same exception; only later calls are judged"]
 SHRINK = {"ops": "list"}
 
